@@ -7,8 +7,9 @@
                        spelling; so the token count is unchanged and nothing was dropped or invented
    nl_before ts        for each significant token, in order: does a newline token occur between the previous
                        significant token (or the start) and it?
-   lines_kept ts root out   every short-form `if` of the syntax tree root (of ts) still occupies one line in
-                       out: no newline between its tokens, and a newline before the token that follows it *)
+   lines_kept ts root out   every short-form `if` of the syntax tree root (of ts) keeps its extent in out: no
+                       line break between two of its tokens that the input did not have, and the line break
+                       before the token that follows it is still there *)
 From PV Require Import Base.Prelude Spec.LuaTokens.
 
 Definition is_ws_byte (b : Z) : bool := (b =? 32) || (b =? 9) || (b =? 10) || (b =? 13).
@@ -61,13 +62,30 @@ Fixpoint short_if_ranges (t : tree) : list (Z * Z) :=
   | _ => []
   end.
 
-(* the significant tokens with ordinals a .. b-1 (b > a) stay on one line and the line ends after them *)
-Definition line_kept (nl : list bool) (a b : nat) : bool :=
-  forallb negb (firstn (b - a - 1) (skipn (S a) nl)) &&
-  match nth_error nl b with Some x => x | None => true end.
+(* the significant tokens with ordinals a .. b-1 (b > a), which form a short-form `if` of the input, keep their
+   extent: the output has no line break between two of them where the input had none (the body stays on the
+   `if` line), and where the input had a line break before the token that follows them the output has one too
+   (what followed stays on a later line).  The comparison is RELATIVE to the input's own line breaks: for a
+   valid program, whose short-ifs occupy one line each, this says "still one line, and the line ends after
+   it"; for an input that is not a valid program (a condition spread over several lines, say) it asks for no
+   more than the input itself had - a writer that reproduces its input exactly always passes.
+   (nli / nlo: nl_before of the input and of the output; same_code makes the ordinals correspond.) *)
+Fixpoint no_new_breaks (nli nlo : list bool) : bool :=
+  match nli, nlo with
+  | i :: ri, o :: ro => (negb o || i) && no_new_breaks ri ro
+  | _, _ => true
+  end.
+
+Definition line_kept (nli nlo : list bool) (a b : nat) : bool :=
+  no_new_breaks (firstn (b - a - 1) (skipn (S a) nli)) (firstn (b - a - 1) (skipn (S a) nlo)) &&
+  match nth_error nli b, nth_error nlo b with
+  | Some true, Some x => x
+  | _, _ => true
+  end.
 
 Definition lines_kept (ts : list token) (root : tree) (out : list token) : bool :=
-  let nl := nl_before out in
+  let nli := nl_before ts in
+  let nlo := nl_before out in
   forallb (fun r => let a := count_sig ts (Z.to_nat (fst r)) in
                     let b := count_sig ts (Z.to_nat (snd r)) in
-                    (b <=? a)%nat || line_kept nl a b) (short_if_ranges root).
+                    (b <=? a)%nat || line_kept nli nlo a b) (short_if_ranges root).
